@@ -336,6 +336,52 @@ class Check(Property):
             v.append(f"C12 failing-activation probe raised {type(exc).__name__}: {exc}")
         return v
 
+    def failed_then_define_probe(self):
+        """a failed activation changes nothing - also not what LATER definitions do: two registries receive the same operations,
+        one of them also suffers activations that fail part-way through their redefinitions; every answer afterwards is the same"""
+        import pint
+        v = []
+
+        def run(with_failure):
+            u = regs.fresh("float")
+            good = pint.Context("c12good")
+            good.redefine("foot = 0.5 m")
+            bad = pint.Context("c12bad2")
+            bad.redefine("yard = 1 m")
+            bad.redefine("meter = 2 inch")          # refused: a base unit cannot be redefined
+            u.add_context(good), u.add_context(bad)
+            out = [u.Quantity(1, "inch").to("cm").magnitude, u.Quantity(1, "foot").to("cm").magnitude, str(u.parse_units("inches"))]
+            if with_failure:
+                for names in (("c12bad2",), ("c12good", "c12bad2")):
+                    try:
+                        u.enable_contexts(*names)
+                        u.disable_contexts(len(names))
+                    except Exception:  # noqa: BLE001
+                        pass
+                out.append(len(u._active_ctx.contexts))
+            else:
+                out.append(0)
+            u.define("inch = 3 cm")
+            out += [u.Quantity(1, "inch").to("cm").magnitude, u.Quantity(1, "foot").to("cm").magnitude, u.get_root_units("inch")[0]]
+            with u.context("c12good"):
+                out.append(u.Quantity(1, "foot").to("cm").magnitude)
+                u_in = u.Quantity(1, "inch").to("cm").magnitude
+            out += [u_in, u.Quantity(1, "foot").to("cm").magnitude]
+            u.define("@alias inch = zoll12")
+            out.append(u.Quantity(2, "zoll12").to("cm").magnitude)
+            return [round(float(x), 9) if not isinstance(x, str) else x for x in out]
+        try:
+            logging.disable(logging.CRITICAL)
+            ref, got = run(False), run(True)
+            if got != ref:
+                v.append(f"C12 activations that failed part-way left residue: the answers afterwards (incl. after define('inch = 3 cm')) are {got}, a registry "
+                         f"that never saw the failed activations answers {ref}")
+        except Exception as exc:  # noqa: BLE001
+            v.append(f"C12 failed-then-define probe raised {type(exc).__name__}: {exc}")
+        finally:
+            logging.disable(logging.NOTSET)
+        return v
+
     def colliding_rules_probe(self):
         """distinct contexts holding a rule for the same pair of dimensions: for every sequence of up to four activations /
         deactivations, with a conversion asked after EVERY step (so whatever the chain has built is in place), the answer is
@@ -391,6 +437,7 @@ class Check(Property):
             v += self.shared_context_probe()
             v += self.failing_activation_probe()
             v += self.colliding_rules_probe()
+            v += self.failed_then_define_probe()
         u = self.runner().u
         logging.disable(logging.CRITICAL)
         added = []
